@@ -240,17 +240,24 @@ func (rw *rewriter) file(f *ast.File) {
 		if !ok {
 			return true
 		}
-		if p, t, m := rw.methodOf(c); p == "sync" {
-			switch {
-			case t == "Cond":
-				rw.refuse(c, "sync.Cond is not supported by the simulator")
-			case t == "RWMutex" && (m == "Lock" || m == "RLock"):
-				rw.refuse(c, "sync.RWMutex locking is not supported by the simulator")
-			}
+		if p, t, _ := rw.methodOf(c); p == "sync" && t == "Cond" {
+			rw.refuse(c, "sync.Cond is not supported by the simulator")
 		}
-		if p, name := rw.funcOf(c); (p == "time" && (name == "AfterFunc" || name == "NewTimer" || name == "NewTicker" || name == "After" || name == "Tick" || name == "Sleep")) ||
+		if p, t, m := rw.methodOf(c); p == "golang.org/x/sync/errgroup" && t == "Group" && (m == "Go" || m == "TryGo") {
+			rw.refuse(c, "errgroup goroutines are not under the simulator's control")
+		}
+		if p, name := rw.funcOf(c); (p == "time" && (name == "AfterFunc" || name == "NewTimer" || name == "NewTicker" || name == "Tick")) ||
 			(p == "context" && name == "AfterFunc") {
 			rw.refuse(c, p+"."+name+" is not supported by the simulator")
+		}
+		// timers the library creates itself are registered with the simulator so
+		// that the fake clock is advanced to them when nothing else can run
+		if p, name := rw.funcOf(c); p == "time" && name == "After" && len(c.Args) == 1 {
+			c.Fun = rt("After")
+			rw.used = true
+		} else if p == "context" && (name == "WithTimeout" || name == "WithDeadline") && len(c.Args) == 2 {
+			c.Fun = rt("Context" + name)
+			rw.used = true
 		}
 		return true
 	})
@@ -292,7 +299,7 @@ func (rw *rewriter) file(f *ast.File) {
 			if rw.blockingCall(x) != "" && !handled[x] {
 				rw.refuse(x, "blocking call in an unsupported position")
 			}
-			if p, t, m := rw.methodOf(x); p == "sync" && t == "Mutex" && m == "Lock" && !handled[x] {
+			if rw.isMutexLock(x) && !handled[x] {
 				rw.refuse(x, "Lock in an unsupported position")
 			}
 		}
@@ -320,18 +327,30 @@ func (rw *rewriter) blockingCall(c *ast.CallExpr) string {
 	case p == "golang.org/x/sync/semaphore" && t == "Weighted" && m == "Acquire":
 		return "semacquire"
 	}
+	if fp, name := rw.funcOf(c); fp == "time" && name == "Sleep" && len(c.Args) == 1 {
+		c.Fun = rt("Sleep")
+		rw.used = true
+		return "sleep"
+	}
+	if fp, name := rw.funcOf(c); fp == rtImport && name == "Sleep" {
+		return "sleep"
+	}
 	return ""
 }
 
 func (rw *rewriter) isMutexLock(c *ast.CallExpr) bool {
 	p, t, m := rw.methodOf(c)
-	return p == "sync" && t == "Mutex" && m == "Lock"
+	return p == "sync" && ((t == "Mutex" && m == "Lock") || (t == "RWMutex" && (m == "Lock" || m == "RLock")))
 }
 
 func (rw *rewriter) beforeLock(c *ast.CallExpr) ast.Stmt {
 	x := c.Fun.(*ast.SelectorExpr).X
-	try := call(&ast.SelectorExpr{X: x, Sel: ast.NewIdent("TryLock")})
-	unlock := call(&ast.SelectorExpr{X: x, Sel: ast.NewIdent("Unlock")})
+	tryName, unlockName := "TryLock", "Unlock"
+	if c.Fun.(*ast.SelectorExpr).Sel.Name == "RLock" {
+		tryName, unlockName = "TryRLock", "RUnlock"
+	}
+	try := call(&ast.SelectorExpr{X: x, Sel: ast.NewIdent(tryName)})
+	unlock := call(&ast.SelectorExpr{X: x, Sel: ast.NewIdent(unlockName)})
 	probe := &ast.FuncLit{
 		Type: &ast.FuncType{Params: &ast.FieldList{}, Results: &ast.FieldList{List: []*ast.Field{{Type: ast.NewIdent("bool")}}}},
 		Body: &ast.BlockStmt{List: []ast.Stmt{
